@@ -22,6 +22,7 @@
 
    Groups (the position reported with a mismatch):
      10 Ticks(o)   20 CountTicks/TicksAtLevel per level (and CountTicks = len TicksAtLevel)
+     21 the observed CountTicks values are non-increasing in the level
      30 Nice(o)    35 Nice never shrinks the domain, new ends finite (observed values, every Max)
      36 Ticks(o) after Nice on the same object = the model's Ticks on the OBSERVED niced domain
      37 second Nice(o) = the model's Nice on the observed niced domain (every Max)
@@ -127,6 +128,13 @@ Definition conclude (tag : Z) (gs : list (Z * Z)) : list Z :=
             | Some p => verdict V_BORDERLINE tag p []
             | None => verdict V_OK tag (-1) []
             end
+  end.
+
+(* CountTicks is non-increasing in the level: on the observed counts themselves (levels ascending) *)
+Fixpoint counts_noninc (l : list levobs) : bool :=
+  match l with
+  | a :: ((b :: _) as t) => ((lv_level b <? lv_level a)%Z || (lv_count b <=? lv_count a)%Z) && counts_noninc t
+  | _ => true
   end.
 
 Definition zrange (a : Z) (n : nat) : list Z := map (fun i => (a + Z.of_nat i)%Z) (seq 0 n).
@@ -288,6 +296,7 @@ Definition judge_linear (c : sccase) : list Z :=
       let g20 := grp (forallb (lin_level_exact base eb mn mx tolv) (so_levels ob))
                      (fun _ => forallb (fun lv => lin_level_exact base eb mn mx tolv lv || lin_level_adm base eb mn mx tolv lv)
                                        (so_levels ob)) in
+      let g21 := law (counts_noninc (so_levels ob)) (1 <=? g20)%Z in
       (* Nice *)
       let '(na, nb) := lin_start mn mx in
       let rn := lin_search o base eb na nb true in
@@ -340,7 +349,7 @@ Definition judge_linear (c : sccase) : list Z :=
                               Qleb (na - ao) (t1 - t0 + tolv ao) && Qleb (bo - nb) (u1 - u0 + tolv bo)
                           | _, _ => false
                           end) bl in
-          conclude tag [(g10, 10%Z); (g20, 20%Z); (g30, 30%Z); (g35, 35%Z); (g36, 36%Z); (g37, 37%Z);
+          conclude tag [(g10, 10%Z); (g20, 20%Z); (g21, 21%Z); (g30, 30%Z); (g35, 35%Z); (g36, 36%Z); (g37, 37%Z);
                         (g40, 40%Z); (g41, 41%Z); (g43, 43%Z); (g45, 45%Z)]
       | _, _ => conclude tag [(2%Z, 42%Z)]
       end
@@ -489,6 +498,7 @@ Definition judge_log (c : sccase) : list Z :=
                  (fun u => negb degenerate &&
                            forallb (fun lv => log_level_exact base e neg emin emax tolv lv ||
                                               existsb (log_level_adm1 base neg emin emax tolv lv) (adm u)) (so_levels ob)) in
+  let g21 := law (counts_noninc (so_levels ob)) (1 <=? g20)%Z in
   let '(x, y) := log_nice_from base mn mx e neg emin emax rn in
   let changed := negb (Qeqb x mn && Qeqb y mx) in
   let tag := Z.lor 256
@@ -506,7 +516,7 @@ Definition judge_log (c : sccase) : list Z :=
                                existsb (fun e' => let '(x', y') := log_nice_from base mn mx e' neg emin emax (log_search o e' true) in
                                                   within (tolv x') x' ao && within (tolv y') y' bo) (adm u)) in
       let g35 := law (Qleb ao mn && Qleb mx bo) false in
-      if negb (Qleb ao bo && Qltb 0 (ao * bo)) then conclude tag [(g10, 10%Z); (g20, 20%Z); (g30, 30%Z); (g35, 35%Z); (2%Z, 42%Z)] else
+      if negb (Qleb ao bo && Qltb 0 (ao * bo)) then conclude tag [(g10, 10%Z); (g20, 20%Z); (g21, 21%Z); (g30, 30%Z); (g35, 35%Z); (2%Z, 42%Z)] else
       (* the object after Nice holds [ao, bo] *)
       let '(neg3, emin3, emax3) := log_fold ao bo in
       let e3 := log_exps base emin3 emax3 in
@@ -535,7 +545,7 @@ Definition judge_log (c : sccase) : list Z :=
                       end) bl in
       let g43 := law (Qeqb ao bo || (xwithin e12 (XFin 0) (so_map0 ob) && xwithin e12 (XFin 1) (so_map1 ob))) false in
       let g45 := law ((omax <? 3)%Z || negb found || log_law45 neg emin emax emin3 emax3 (so_major3 ob)) bl in
-      conclude tag [(g10, 10%Z); (g20, 20%Z); (g30, 30%Z); (g35, 35%Z); (g36, 36%Z); (g37, 37%Z);
+      conclude tag [(g10, 10%Z); (g20, 20%Z); (g21, 21%Z); (g30, 30%Z); (g35, 35%Z); (g36, 36%Z); (g37, 37%Z);
                     (g40, 40%Z); (g41, 41%Z); (g43, 43%Z); (g45, 45%Z)]
   | _, _ => conclude tag [(2%Z, 42%Z)]
   end.
